@@ -4,7 +4,10 @@ package driver
 
 // Injected by the /verif overlay (never committed to the repository).
 
-import "net/url"
+import (
+	"encoding/json"
+	"net/url"
+)
 
 // VerifConfigure sets one option of the current configuration.
 func VerifConfigure(name, value string) error { return configure(name, value) }
@@ -44,6 +47,17 @@ func VerifURLRoundTrip(q url.Values) (map[string]string, url.Values, error) {
 	}
 	u, _ := cfg.makeURL(url.URL{})
 	return fields, u.Query(), nil
+}
+
+// VerifURLToJSON applies the query to a default config and returns the config
+// in the form the settings file stores (no string codec of pprof in between).
+func VerifURLToJSON(q url.Values) (string, error) {
+	cfg := defaultConfig()
+	if err := cfg.applyURL(q); err != nil {
+		return "", err
+	}
+	b, err := json.Marshal(cfg)
+	return string(b), err
 }
 
 // VerifSettingsFileName exposes settingsFileName.
